@@ -87,8 +87,8 @@ def editions_ok(c, written):
     # every edition the database maps the written string to (exact users if any, else variation users)
     # must be among the candidates eyecite consults (exact candidates if any, else variation candidates)
     cand = c.exact_editions or c.variation_editions
-    names = {(e.short_name, e.reporter.short_name) for e in cand}
-    exp = {(e.name, e.reporter_key) for e, _ in inv.users(written)}
+    names = {(e.short_name, e.reporter.short_name, e.reporter.name) for e in cand}
+    exp = {(e.name, e.reporter_key, e.reporter_name) for e, _ in inv.users(written)}
     return exp <= names, names, exp
 
 
